@@ -38,7 +38,8 @@ def num_text(x, style=0):
     if style == 1:
         return repr(float(x))
     if style == 2:
-        return f"{float(x):.3e}" if x else "0"
+        t = f"{float(x):e}"
+        return t if float(t) == float(x) else repr(float(x))
     if style == 3:
         t = repr(float(x))
         return t[1:] if t.startswith("0.") else (t[:-1] if t.endswith(".0") else t)   # .5  /  3.
@@ -172,6 +173,16 @@ def archetypes(tier, seed):
     out.append(block(rng, dists[0], dists[1]))
     out.append(block(rng, dists[2], dists[3], connector="CC"))
     out.append(dollar_block(rng, "uniform(12, 72)", "uniform(12, 72)"))
+    b = block(rng, dists[1], dists[0], connector="CC")
+    b["elements"][1]["right"] = bd("<", "", 8)          # weighted terminal in front of a connector token
+    b["archetype"] = "block-connector-weighted-terminal"
+    out.append(b)
+    b = block(rng, dists[0], dists[3], connector="COC")
+    b["elements"][1]["right"] = bd("<", 2, [1, 3])
+    b["elements"][1]["left"] = bd(">", 2)
+    b["elements"][1]["repeat"] = [RU_DIRECTED[0](bd("<", 2), bd(">", 2))]
+    b["archetype"] = "block-connector-listed-terminal"
+    out.append(b)
     out.append(step_growth(rng, "flory_schulz(0.1)"))
     out.append(step_growth(rng, dists[0]))
     out.append(star(rng, "gauss(120, 30)"))
